@@ -1,7 +1,9 @@
 PROP = {
     "regen_files": ["GenGuards.v", "GenDeleg.v", "GenSigs.v"],
     "num": 2,
-    "runs": [{"tag": "c02", "bin": "c02"},
+    "runs": [
+        # caller program compiled separately: slice methods through auto-deref with the crate's traits glob-imported, slice views of arrays of arrays with an inferred element type
+        {"tag": "c02call", "bin": "gcall", "no_default_features": True, "args": ["--prop", "C02"], "model": False},{"tag": "c02", "bin": "c02"},
              # optimised build of the same cases: no debug assertions, no overflow checks, inlined unsafe paths
              {"tag": "c02rel", "bin": "c02", "profile": "release"},
              # slices of zero-sized elements whose length agrees with N only modulo 2^32 (direct oracle:
